@@ -108,19 +108,9 @@ where
                 let mut ret = Ordering::Equal;
                 for (order, rev) in q.order_by() {
                     if *rev {
-                        ret = ret.then(
-                            b.get(order)
-                                .unwrap()
-                                .to_string()
-                                .cmp(&a.get(order).unwrap().to_string()),
-                        );
+                        ret = ret.then(cmp_value(b.get(order).unwrap(), a.get(order).unwrap()));
                     } else {
-                        ret = ret.then(
-                            a.get(order)
-                                .unwrap()
-                                .to_string()
-                                .cmp(&b.get(order).unwrap().to_string()),
-                        );
+                        ret = ret.then(cmp_value(a.get(order).unwrap(), b.get(order).unwrap()));
                     }
                 }
 
@@ -240,6 +230,21 @@ impl Expr {
                 false
             }
         }
+    }
+}
+
+/// order of two field values: numbers numerically, strings by their bytes
+fn cmp_value(a: &JsonValue, b: &JsonValue) -> Ordering {
+    match (a, b) {
+        (JsonValue::Number(x), JsonValue::Number(y)) => match (x.as_i64(), y.as_i64()) {
+            (Some(x), Some(y)) => x.cmp(&y),
+            _ => x
+                .as_f64()
+                .partial_cmp(&y.as_f64())
+                .unwrap_or(Ordering::Equal),
+        },
+        (JsonValue::String(x), JsonValue::String(y)) => x.cmp(y),
+        _ => a.to_string().cmp(&b.to_string()),
     }
 }
 
